@@ -25,8 +25,8 @@ import alloc_cases as ac
 
 def plans(tier):
     if tier == "quick":
-        return [("seq", 2), ("overlap", 0), ("overlap", 17)]
-    return [("seq", 3), ("overlap", 0), ("overlap", 1), ("overlap", 7), ("overlap", 17), ("overlap", 33),
+        return [("seq", 2), ("seq0", 2), ("overlap", 0), ("overlap", 17)]
+    return [("seq", 3), ("seq0", 3), ("overlap", 0), ("overlap", 1), ("overlap", 7), ("overlap", 17), ("overlap", 33),
             ("overlap", 61), ("overlap", 120)]
 
 
